@@ -8,13 +8,15 @@ import sys
 from . import VERIF_DIR, REPO_DIR
 
 
-def _run_one(files, workdir, timeout, tag):
+def _run_one(files, workdir, timeout, tag, monitors=None):
     report_path = os.path.join(workdir, 'contract-report-%d-%s.json'
                                % (os.getpid(), tag))
     env = dict(os.environ)
     env['VERIF_CONTRACT_REPORT'] = report_path
     env['PYTHONPATH'] = VERIF_DIR + os.pathsep + env.get('PYTHONPATH', '')
     env.pop('PYWBEM_VERIF', None)
+    if monitors:
+        env['VERIF_MONITORS'] = monitors
     try:
         proc = subprocess.run(
             [sys.executable, '-m', 'pytest', '-q', '-p', 'no:cacheprovider',
@@ -34,14 +36,16 @@ def _run_one(files, workdir, timeout, tag):
     return rep
 
 
-def run_repo_tests_with_contracts(files, workdir, timeout=3600):
+def run_repo_tests_with_contracts(files, workdir, timeout=3600,
+                                  monitors=None):
     """One pytest process per test file (in parallel), reports merged.  The
     wall-clock limit is a watchdog only: its firing is inconclusive."""
     from concurrent.futures import ThreadPoolExecutor
     files = [f for f in files if os.path.exists(os.path.join(REPO_DIR, f))]
     with ThreadPoolExecutor(max_workers=max(1, min(8, len(files)))) as ex:
         reps = list(ex.map(
-            lambda t: _run_one([t[1]], workdir, timeout, str(t[0])),
+            lambda t: _run_one([t[1]], workdir, timeout, str(t[0]),
+                               monitors),
             enumerate(files)))
     for r in reps:
         if 'error' in r:
@@ -60,4 +64,67 @@ def run_repo_tests_with_contracts(files, workdir, timeout=3600):
                                   for r in reps),
            'tests_failed': sum(r.get('tests_failed') or 0 for r in reps),
            'pytest_tail': ' | '.join(r.get('pytest_tail', '') for r in reps)}
+    hv = [r['harvest'] for r in reps if r.get('harvest')]
+    if hv:
+        per = {}
+        for h in hv:
+            for k, v in h['per_class'].items():
+                per[k] = per.get(k, 0) + v
+        rep['harvest'] = {'constructed': sum(h['constructed'] for h in hv),
+                          'kept': sum(h['kept'] for h in hv),
+                          'per_class': per,
+                          'unpicklable': sum(h['unpicklable'] for h in hv),
+                          'files': [h['file'] for h in hv if h.get('file')]}
+    eh = [r['eqhash'] for r in reps if r.get('eqhash')]
+    if eh:
+        per = {}
+        for e in eh:
+            for k, v in e['per_class'].items():
+                per[k] = per.get(k, 0) + v
+        rep['eqhash'] = {
+            'pairs': sum(e['pairs'] for e in eh),
+            'equal_pairs': sum(e['equal_pairs'] for e in eh),
+            'skipped': sum(e['skipped'] for e in eh), 'per_class': per,
+            'violations': [v for e in eh for v in e['violations']]}
     return rep
+
+
+HARVEST_TEST_FILES = [
+    'tests/unittest/pywbem/test_cim_obj.py',
+    'tests/unittest/pywbem/test_cim_types.py',
+    'tests/unittest/pywbem/test_tupleparse.py',
+    'tests/unittest/pywbem/test_mof_compiler.py',
+    'tests/unittest/pywbem/test_recorder.py',
+    'tests/unittest/pywbem/test_cim_operations.py',
+    'tests/unittest/pywbem/test_subscription_manager.py',
+    'tests/unittest/pywbem/test_valuemapping.py',
+    'tests/unittest/pywbem/test_itermethods.py',
+    'tests/unittest/pywbem_mock/test_inmemory_repository.py',
+    'tests/unittest/pywbem_mock/test_complexassoc.py',
+    'tests/unittest/pywbem_mock/test_multi_ns_assoc.py',
+    'tests/functiontest']
+
+
+def harvest_repo_objects(workdir, files=None, timeout=3600):
+    """-> (objects [(classname, object)], report).  The CIM objects that the
+    repository's own tests construct (vf.contracts_plugin.Harvester),
+    unpickled in this process, de-duplicated across the test files."""
+    import pickle
+    rep = run_repo_tests_with_contracts(files or HARVEST_TEST_FILES, workdir,
+                                        timeout=timeout, monitors='harvest')
+    if 'error' in rep:
+        return [], rep
+    seen, objs, bad = set(), [], 0
+    for path in (rep.get('harvest') or {}).get('files', []):
+        with open(path, 'rb') as f:
+            for cls, data in pickle.load(f):
+                if data in seen:
+                    continue
+                seen.add(data)
+                try:
+                    objs.append((cls, pickle.loads(data)))
+                except Exception:  # pylint: disable=broad-except
+                    bad += 1
+    rep['harvest']['distinct'] = len(objs)
+    rep['harvest']['unpickle_failed'] = bad
+    return objs, rep
